@@ -9,9 +9,10 @@ pub mod c05;
 pub mod c07;
 pub mod c09;
 pub mod c10;
+pub mod c17;
 
 pub fn all() -> Vec<PropertyDef> {
-    vec![c01::def(), c05::def(), c07::def(), c09::def(), c10::def()]
+    vec![c01::def(), c05::def(), c07::def(), c09::def(), c10::def(), c17::def()]
 }
 
 // ---- shared: simulation parameters <-> JSON ---------------------------------------------------
@@ -74,7 +75,7 @@ pub fn gen_sim(g: &mut Gen, n_tasks: usize, clock_regimes: bool) -> Value {
     json!({
         "sched": sched, "sseed": g.u64(), "depth": depth, "workers": workers,
         "clock": {"regime": regime, "seed": g.u64(), "base_ns": base, "default_ns": default_ns, "jitter": jitter, "stall": stall},
-        "max_steps": 3_000_000u64,
+        "max_steps": 600_000u64,
     })
 }
 
